@@ -8,6 +8,7 @@
 import IocProofs.Lemmas.MatchPoint
 import IocProofs.Lemmas.MatchNaming
 import IocProofs.Lemmas.MatchExamples
+import IocProofs.Lemmas.SemDiscover
 namespace Ioc.C07
 open Ioc Ioc.Tag Ioc.Match
 
@@ -109,5 +110,19 @@ example : (M2.step (scBad true) (stBad true)).status = .failed 9 .refresh := by 
 example : (M2.step (scBad false) (stBad false)).status = .running ∧ (M2.step (scBad false) (stBad false)).fields 9 0 = [] ∧
     ((M2.step (scBad false) (stBad false)).stack.map (fun f => (f.name, f.p, f.d))) = [(9, 1, 0)] := by decide
 end examples
+
+/-- the tie to the code for BY-NAME points (regenerated wire processor, `C06_code_discovery_wire`): a `wire:"name"` point of
+    pointer or interface kind gets exactly ONE candidate appended — what the registry answers for that name, a nil Meta when
+    nothing is registered under it — never a by-type fallback; a named point of any other kind (slices, …) gets nothing -/
+theorem C07_code_by_name (pop : List Match.Prov) (byName : String → Option Nat) (p : Sem.DProp)
+    (hw : p.tag = "wire") (hn : p.tagVal ≠ "") :
+    Sem.discoverWire pop byName p =
+      (match p.kind with
+       | .ptr _ => [byName p.tagVal]
+       | .iface _ => [byName p.tagVal]
+       | _ => []) := by
+  have : (p.tagVal == "") = false := by simpa using hn
+  simp only [Sem.discoverWire, hw, this, bne_self_eq_false, Bool.false_eq_true, if_false]
+  cases p.kind <;> rfl
 
 end Ioc.C07
